@@ -2,8 +2,8 @@
 
 Tie: (a) translator fact - the JobStatus enum of the source (names -> codes) regenerated into Generated/Facts_C14.v and
 consumed by theorem C14_status_codes; (b) trace acceptance - real searches with a timeout are run with a logging storage
-(every status write) and run-functions that log start / every status poll / return under one lock; a sentinel is logged
-1.5 s after the deadline.  The extracted Coq oracle ok_C14 replays every job's events on the status machine and checks the
+(every status write) and run-functions that log start / every status poll / return under one lock; two sentinels are
+logged 0.4 s and 1.9 s after the deadline.  The extracted Coq oracle ok_C14 replays every job's events on the status machine and checks the
 results table (one row per job, terminal status = last write, returned value kept, jobs running across the deadline were
 told to cancel and are reported CANCELLED, no run-function activity after search() returned).
 """
@@ -22,7 +22,7 @@ PROPERTY = "C14"
 LEVEL = "proof"
 FACTS = ["job_status"]
 TRUSTED = [
-    "real time: the deadline itself is not observed; a sentinel logged 1.5 s after it separates 'running across the deadline' from the rest; "
+    "real time: the deadline itself is not observed; two sentinels logged 0.4 s and 1.9 s after it: a job started before the first and not returned before the second was running across the deadline and must have been told to cancel before the second (1.5 s of slack for scheduling latency); "
     "a job finishing within that window may legally end DONE or CANCELLED",
     "asyncio.wait_for / shield / the thread pool behave as documented; status reads and writes are atomic under the harness lock",
 ]
@@ -130,34 +130,54 @@ def run_case(case):
     backend = case["backend"]
     evaluator = Evaluator.create(run_async if backend == "serial" else run_sync, method=backend,
                                  method_kwargs={"num_workers": case["workers"], "storage": storage})
+    def sentinel():
+        with lock:
+            trace.append([0, 9, 0])
+
+    mode = case.get("mode", "search")
     with tempfile.TemporaryDirectory(prefix="vp_c14_") as d:
-        search = RandomSearch(problem, evaluator, random_state=1, log_dir=d)
-
-        def sentinel():
-            with lock:
-                trace.append([0, 9, 0])
-
-        timer = threading.Timer(T + 1.5, sentinel)
+        timer = threading.Timer(T + 0.4, sentinel)
         timer.daemon = True
-        timer.start()
-        df = search.search(timeout=T)
+        timer2 = threading.Timer(T + 1.9, sentinel)
+        timer2.daemon = True
+        timer2.start()
+        table = []
+        if mode == "evaluator":
+            # evaluator-level timeout with more jobs submitted than workers: some jobs are still queued at the deadline
+            evaluator.timeout = T
+            timer.start()
+            evaluator.submit([{"x": float(i)} for i in range(case["njobs"])])
+            jobs = evaluator.gather("ALL")
+            evaluator.close()
+            for job in jobs:
+                out = job.output
+                table.append([int(job.id.split(".")[1]), int(job.status.value), int(out) if isinstance(out, (int, float)) else -1])
+        else:
+            search = RandomSearch(problem, evaluator, random_state=1, log_dir=d)
+            timer.start()
+            if mode == "search":
+                df = search.search(timeout=T)
+            elif mode == "search_max":
+                df = search.search(max_evals=case["max_evals"], timeout=T)
+            else:  # strict budget that may be hit in the middle of a batch
+                df = search.search(max_evals=case["max_evals"], timeout=T, max_evals_strict=True)
+            if df is not None:
+                for _, row in df.iterrows():
+                    obj = row["objective"]
+                    try:
+                        o = int(float(obj))
+                    except (TypeError, ValueError):
+                        o = -1
+                    table.append([int(row["job_id"]), int(JobStatus[row["job_status"]].value), o])
         with lock:
             n_at_return = len(trace)
         time.sleep(0.3)
         timer.cancel()
+        timer2.cancel()
         with lock:
             late = sum(1 for e in trace[n_at_return:] if e[1] in (1, 2, 3))
             tr = list(trace)
         njobs = len(storage.load_all_job_ids(evaluator._search_id))
-        table = []
-        if df is not None:
-            for _, row in df.iterrows():
-                obj = row["objective"]
-                try:
-                    o = int(float(obj))
-                except (TypeError, ValueError):
-                    o = -1
-                table.append([int(row["job_id"]), int(JobStatus[row["job_status"]].value), o])
     ex = getattr(evaluator, "executor", None)
     if ex is not None:
         ex.shutdown(wait=False, cancel_futures=True)
@@ -169,8 +189,8 @@ def check(case):
     ok, j, clause = model().call(F_CHECK, [njobs, tr, [list(v) for v in vals], table, -1, late])
     statuses = sorted(set(r[1] for r in table))
     res = dict(ok=True, kind="oracle", clause="", nontrivial=(2 in statuses and 4 in statuses),
-               sig={"backend": case["backend"]},
-               desc=["backend=" + case["backend"], "workers=%d" % case["workers"], "timeout=%d" % case["timeout"], "jobs=%d" % njobs,
+               sig={"backend": case["backend"], "mode": case.get("mode", "search")},
+               desc=["mode=" + case.get("mode", "search"), "backend=" + case["backend"], "workers=%d" % case["workers"], "timeout=%d" % case["timeout"], "jobs=%d" % njobs,
                      "mixed_done_cancelled" if (2 in statuses and 4 in statuses) else "uniform"])
     if not ok:
         jtrace = [e for e in tr if e[0] == j or e[1] == 9]
@@ -194,10 +214,21 @@ def gen(count, backends):
                 plan[0] = ["short", 0.2, 0.05, 0]
             if not any(p[0] == "long" for p in plan):
                 plan[-1] = ["long", 0, 0.1, 0]
-            yield dict(timeout=T, workers=rng.choice([1, 2, 4]), backend=backends[i % len(backends)], plan=plan)
+            W = rng.choice([1, 2, 4])
+            mode = ["search", "evaluator", "search_strict", "search", "evaluator", "search_max"][i % 6]
+            c = dict(timeout=T, workers=W, backend=backends[(i // 2) % len(backends)], plan=plan, mode=mode)
+            if mode == "evaluator":
+                c["timeout"] = 2  # a job queued at the deadline with a stale budget would run 2 s more: visible beyond the slack
+                c["njobs"] = W + rng.randint(1, 2 * W + 1)
+                # jobs queued behind the workers must not all finish before the deadline: long jobs only
+                c["plan"] = [p for p in plan if p[0] == "long"] * 2 + [["short", 0.3, 0.1, 0]]
+            elif mode in ("search_strict", "search_max"):
+                c["max_evals"] = rng.choice([W + 1, 2 * W + 1, 3]) if W > 1 else rng.choice([2, 3])
+                c["plan"] = [p for p in plan if p[0] == "long"]  # every job runs until told to cancel
+            yield c
     return g
 
 
 def streams(tier):
     th = tier == "thorough"
-    return [Stream("timeout_searches", gen(48 if th else 12, ["serial", "thread"]), check, None, timeout=60)]
+    return [Stream("timeout_searches", gen(72 if th else 18, ["serial", "thread"]), check, None, timeout=90)]
